@@ -183,6 +183,10 @@ class NumpyTheory:
             nonneg = st.entails(z3.ForAll([q], z3.Implies(z3.And(q >= 0, q < ci.length), idx[q] >= 0))) if False else False
             st.assume(z3.ForAll([k], z3.Implies(z3.And(k >= 0, k < ci.length),
                                                 z3.And([r[k] == x[norm(idx[k])] for r, x in zip(leaves, cb.leaves)]))))
+            k2 = z3.Int(fresh_name('k'))
+            # the same fact without the wrap-around case split, for non-negative indices (a simpler term for instantiation)
+            st.assume(z3.ForAll([k2], z3.Implies(z3.And(k2 >= 0, k2 < ci.length, idx[k2] >= 0),
+                                                 z3.And([r[k2] == x[idx[k2]] for r, x in zip(leaves, cb.leaves)]))))
             return res
         return None
 
